@@ -37,7 +37,7 @@ RULE = ("WSGI SendEventResponse rendezvous scenarios: producer length n in 0..4 
         "SendEventResponse on a virtual-time grid: n in 0..4 x producer delay {0,.5,1.5,4} x send delay {0,.5} x disconnect at {none, {0,.5,1,1.5,2,3}+-eps} x raise point "
         "{none,0,1} x async-generator / plain async-iterable producers. Non-trivial = the close/disconnect happens before the producer is exhausted; distinct = scenario "
         "tuple (rendezvous/grid: by construction) or the observed cross-thread line interleaving (yield injection).")
-RULE += ' Also: streaming responses answering HEAD / POST / OPTIONS / DELETE requests (the producer is consumed or closed, never left open); producers whose cleanup takes a moment (when close() has returned, the cleanup has finished); field-less events and zero-length chunks as producer steps, producers whose cleanup raises, iterator-object and iterable-object producers with their own close(), a relay still queued behind a saturated pool, ASGI send() failures combined with raising cleanup, endless producers that never await (step cap 5000).'
+RULE += ' Also: streaming responses answering HEAD / POST / OPTIONS / DELETE requests (the producer is consumed or closed, never left open); producers whose cleanup takes a moment (when close() has returned, the cleanup has finished); field-less events and zero-length chunks as producer steps, producers whose cleanup raises, iterator-object and iterable-object producers with their own close(), a relay still queued behind a saturated pool, ASGI send() failures combined with raising cleanup, endless producers that never await (step cap 5000). Async producers whose cleanup awaits for 0.3 / 2.5 / 7 ping intervals (it runs to its end); one event dict kept by the producer, brought up to date after a pause and yielded again.'
 ASSUMPTIONS = [
     "the producer's cleanup marker is synchronous (a finally that itself awaits can be cut short by asyncio cancellation: an observation, never used for a verdict)",
     "closing a WSGI response iterable on which next() was never called starts nothing and carries no expectations",
@@ -986,7 +986,7 @@ class StarvationGuard(BaseException):
 
 
 def asgi_scenario(ctx, cls_name, n_items, item_delay, send_delay, t_disc, ping, raise_at, agen, empties=0,
-                  cleanup_raises=False, send_fail_at=None, busy=False, request_messages=0, spec_version=None):
+                  cleanup_raises=False, send_fail_at=None, busy=False, request_messages=0, spec_version=None, cleanup_takes=0.0, same_object=False):
     """busy: an endless producer that never awaits between its yields (like the class docstring's example) against a
     client that takes send_delay per event; cleanup_raises: the producer's own cleanup raises; send_fail_at: the
     server's n-th body send() raises OSError (client gone without an http.disconnect message)."""
@@ -995,9 +995,16 @@ def asgi_scenario(ctx, cls_name, n_items, item_delay, send_delay, t_disc, ping, 
     loop = drivers.VLoop(max_iterations=200_000)
     log, cleanup, yielded, started = [], [], [], []
     cleanup_at_quiescence = []
+    cleanup_finished = []
     sse = cls_name == "SendEventResponse"
 
+    shared = {}
+
     def make(i):
+        if same_object and sse:
+            # the producer keeps ONE dict, brings it up to date and yields it again (only after a pause: the previous event has long been written)
+            shared.update(data=str(i), id=str(i))
+            return shared
         return {"data": str(i), "id": str(i)} if sse else b"%d;" % i
 
     box = {}
@@ -1023,6 +1030,9 @@ def asgi_scenario(ctx, cls_name, n_items, item_delay, send_delay, t_disc, ping, 
                 yield make(i)
         finally:
             cleanup.append(loop.time())
+            if cleanup_takes:
+                await asyncio.sleep(cleanup_takes)  # the cleanup awaits something (unsubscribing from a broker): longer than a ping interval
+                cleanup_finished.append(loop.time())
             if cleanup_raises:
                 raise RuntimeError("producer cleanup failed")
 
@@ -1070,6 +1080,8 @@ def asgi_scenario(ctx, cls_name, n_items, item_delay, send_delay, t_disc, ping, 
         except BaseException as e:  # noqa
             exc = e
         t_ret = loop.time()
+        if cleanup_takes:
+            await asyncio.sleep(cleanup_takes * 2 + 1)  # the cleanup that is under way gets the time it needs
         for _ in range(50):
             await asyncio.sleep(0)
             if not [t for t in asyncio.all_tasks() if t is not asyncio.current_task() and not t.done()]:
@@ -1106,7 +1118,7 @@ def asgi_scenario(ctx, cls_name, n_items, item_delay, send_delay, t_disc, ping, 
     case = {"class": "asgi." + cls_name, "n": n_items, "producer_delay": item_delay, "send_delay": send_delay, "disconnect_at": t_disc, "ping": ping,
             "raise_at": raise_at, "async_generator": agen, "empty_chunks_before_each_item": empties,
             "cleanup_raises": cleanup_raises, "send_fail_at": send_fail_at, "busy_endless_producer": busy,
-            "request_messages_before_disconnect": request_messages, "asgi_spec_version": spec_version}
+            "request_messages_before_disconnect": request_messages, "asgi_spec_version": spec_version, "cleanup_takes": cleanup_takes, "same_event_object_updated_and_yielded_again": same_object}
     ctx.mon("asgi-virtual-time")
     fam = "asgi-sse" if sse else "asgi-stream"
     if stuck:
@@ -1126,6 +1138,10 @@ def asgi_scenario(ctx, cls_name, n_items, item_delay, send_delay, t_disc, ping, 
         ncl = cleanup_at_quiescence[0] if cleanup_at_quiescence else len(cleanup)
         if started and (ncl != 1 or len(cleanup) != 1):
             ctx.violation(f"{fam}|cleanup-ran-{ncl}-times-by-quiescence", case, f"{len(cleanup)} after shutdown_asyncgens")
+    if agen and cleanup_takes and not stuck:
+        ctx.mon("cleanup-runs-to-its-end")
+        if len(cleanup) == 1 and len(cleanup_finished) != 1:
+            ctx.violation(f"{fam}|cleanup-of-the-producer-interrupted", case, "the producer's finally block was entered and never ran to its end (cancelled while it was awaiting)")
     for e in errs:
         if "was destroyed but it is pending" in e:
             ctx.violation(f"{fam}|task-destroyed-while-pending", case, e[:200])
@@ -1170,7 +1186,7 @@ def asgi_scenario(ctx, cls_name, n_items, item_delay, send_delay, t_disc, ping, 
     ctx.mon("bounded-return")
     if t_disc is not None and exc is None:
         step = ping if sse else item_delay
-        bound = t_disc + step + 3 * send_delay + 1e-6
+        bound = t_disc + step + 3 * send_delay + 1e-6 + cleanup_takes  # (closing the producer may include waiting for its cleanup)
         if t_ret > bound:
             ctx.violation(f"{fam}|returns-later-than-bound-after-disconnect", case, f"returned at {t_ret}, bound {bound} (virtual time)")
         ctx.extra["max_return_lag_virtual"] = max(ctx.extra.get("max_return_lag_virtual", 0.0), t_ret - t_disc)
@@ -1227,6 +1243,14 @@ def run(ctx):
                         asgi_scenario(ctx, cls, n_items, idl, 0, None, 1.0, None, agen, request_messages=-1)  # receive() raises: nobody disconnected, everything is delivered
                         ctx.mon("scope-variants")
                         ctx.case_enum(True)
+        for cls in ("SendEventResponse", "StreamResponse"):
+            for n_items, idl, td in ((3, 0.4, 0.5), (6, 1.0, 2.2), (2, 5.0, 1.0), (3, 0.0, None), (4, 0.3, 0.0)):
+                for takes in (0.3, 2.5, 7.0):  # shorter and (much) longer than the ping interval of 1 s
+                    asgi_scenario(ctx, cls, n_items, idl, 0, td, 1.0, None, True, cleanup_takes=takes)
+                    ctx.case_enum(True)
+        for n_items, idl, td in ((3, 0.4, None), (6, 1.5, None), (5, 0.2, 0.7), (2, 3.0, None)):
+            asgi_scenario(ctx, "SendEventResponse", n_items, idl, 0, td, 1.0, None, True, same_object=True)
+            ctx.case_enum(True)
         for cls in ("SendEventResponse", "StreamResponse"):
             for sdl in (0.5, 0.01):
                 for td in (0.0, 1.001, 2.5):
@@ -1386,7 +1410,8 @@ def replay(ctx, case):
     if case.get("class", "").startswith("asgi."):
         asgi_scenario(ctx, case["class"][5:], case["n"], case["producer_delay"], case["send_delay"], case["disconnect_at"], case["ping"], case["raise_at"],
                       case.get("async_generator", True), case.get("empty_chunks_before_each_item", 0), case.get("cleanup_raises", False),
-                      case.get("send_fail_at"), case.get("busy_endless_producer", False), case.get("request_messages_before_disconnect", 0), case.get("asgi_spec_version"))
+                      case.get("send_fail_at"), case.get("busy_endless_producer", False), case.get("request_messages_before_disconnect", 0), case.get("asgi_spec_version"),
+                      case.get("cleanup_takes", 0.0), case.get("same_event_object_updated_and_yielded_again", False))
     elif case.get("class") == "wsgi.StreamResponse":
         wsgi_stream_response(ctx, case["n"], case["close_after"], case["raise_at"], case.get("producer", "generator"))
     elif case.get("scenario", "").startswith("one worker pool"):
